@@ -405,7 +405,7 @@ class Packetizer:
         # we increment the last 8 bytes of the 12-byte IV...
         iv_counter_b = iv[4:]
         iv_counter = int.from_bytes(iv_counter_b, "big")
-        inc_iv_counter = iv_counter + 1
+        inc_iv_counter = (iv_counter + 1) & 0xFFFFFFFFFFFFFFFF
         inc_iv_counter_b = inc_iv_counter.to_bytes(8, "big")
         # ...then re-concatenate it with the static first 4 bytes
         new_iv = iv[0:4] + inc_iv_counter_b
